@@ -1,12 +1,13 @@
 #!/bin/bash
-# tools/run_seeds.sh /tmp/seed-X-out : copies each delivered change into /verif/seeded/<id>/ and tries it
+# tools/run_seeds.sh /tmp/seed-X-out : copies each delivered change into /verif/seeded/<Cxx>-<k>/ (next free k) and tries it
 for d in "$1"/C*-*/; do
-  id=$(basename "$d"); pid=${id%%-*}
-  dst=/verif/seeded/$id
-  [ -f "$dst/result.log" ] && continue
-  mkdir -p "$dst"; cp -r "$d"/* "$dst"/ 2>/dev/null
+  src=$(basename "$d"); pid=${src%%-*}
+  [ -f "$d/.imported" ] && continue
+  k=1; while [ -e /verif/seeded/$pid-$k ]; do k=$((k+1)); done
+  id=$pid-$k; dst=/verif/seeded/$id
+  mkdir -p "$dst"; cp -r "$d"/* "$dst"/ 2>/dev/null; echo "$id" > "$d/.imported"
   demo=""; [ -f "$dst/demo/run.sh" ] && demo="$dst/demo/run.sh"
   echo "### $id $(date +%T)"
   /verif/tools/try_seed.sh "$pid" "$dst/patch.diff" $demo > "$dst/result.log" 2>&1
-  grep -E "exit=|VIOLATION|KNOWN|^OK" "$dst/result.log" | head -12
+  grep -E "exit=|VIOLATION|KNOWN|^OK" "$dst/result.log" | cut -c1-120 | head -12
 done
